@@ -17,6 +17,7 @@ import (
 
 	fxtypes "github.com/functionx/fx-core/v8/types"
 
+	erc20types "github.com/functionx/fx-core/v8/x/erc20/types"
 	"verif/harness/chain"
 	"verif/harness/core"
 	"verif/harness/evmasm"
@@ -177,8 +178,60 @@ func runC09(cs core.Case, verbose bool) core.CaseResult {
 			r.runAmple([]pcontract{whole}, "reverted-top/"+st.Label)
 		}
 	}
+	r.directCalls()
 	res.Sample = map[string]interface{}{"spec": spec, "programs": samples}
 	return res
+}
+
+// directCalls: every precompile step of the library sent by an externally-owned account straight to the
+// precompile, as the outermost call of a transaction (no contract, no catcher). A transaction that fails leaves
+// nothing but the sender's sequence behind.
+func (r *c09Run) directCalls() {
+	e, c := r.e, r.e.C
+	lib := r.lib(0)
+	cc := fix.PrecompileCrosschain()
+	addrs := make([]common.Address, 8)
+	for i := range addrs {
+		addrs[i] = e.Caller.Hex()
+	}
+	for _, st := range lib {
+		if !st.Precompile || r.res.Inconclusive != "" {
+			continue
+		}
+		ctx := c.Branch()
+		// the sender owns the token as ERC-20 and has approved the precompile for it
+		c.MsgOn(ctx, &erc20types.MsgConvertCoin{Coin: sdk.NewCoin(e.USDT.Base, sdkmath.NewInt(5_000)), Receiver: e.Caller.Hex().Hex(), Sender: e.Caller.Bech32()})
+		c.EthTxOn(ctx, e.Caller, &e.USDT.ERC20, chain.ERC20Pack("approve", cc, big.NewInt(1_000_000)), nil, 0)
+		before := c.Dump(ctx)
+		to := st.To(addrs)
+		er := c.EthTxOn(ctx, e.Caller, &to, st.Data(addrs), st.Value, 3_000_000)
+		r.res.Count("direct_calls", 1)
+		if r.verb {
+			fmt.Printf("DIRECT %s: failed=%v %s\n", st.Label, er.Failed(), short(er.VmError()))
+		}
+		if !er.Failed() {
+			continue
+		}
+		r.res.Count("direct_calls_failed", 1)
+		skip := map[string]bool{string(e.Caller.Hex().Bytes()): true}
+		var lines []string
+		for _, d := range chain.Diff(before, c.Dump(ctx)) {
+			if c09Allowed(d, skip) {
+				continue
+			}
+			lines = append(lines, d.String())
+		}
+		if len(lines) > 0 {
+			l := st.Label
+			if k := strings.IndexByte(l, '('); k > 0 {
+				l = l[:k]
+			}
+			if len(lines) > 8 {
+				lines = append(lines[:8], fmt.Sprintf("… %d more", len(lines)-8))
+			}
+			r.res.Violate("C09/partial-effects/"+l+"/direct-call", "%s sent by an externally-owned account directly to the precompile fails (%s) and leaves:\n%s", st.Label, short(er.VmError()), strings.Join(lines, "\n"))
+		}
+	}
 }
 
 // runAmple executes one program once with ample gas (plain and inside the catching wrapper) and compares it with its twin.
